@@ -12,6 +12,7 @@
   counterexample shows the full statement false of the model (= known findings).
 -/
 import TypedpyModel.Lemmas.DefineWorld
+import TypedpyModel.Lemmas.DefineBridge
 namespace Typedpy.C14
 open Typedpy
 
@@ -256,11 +257,12 @@ theorem immutableField_subclass_rejected (fw : List FieldCls) (name b : String) 
 theorem abstract_not_instantiable (O : Oracles) (c : ClassDef) (kw : List (String × PyVal))
     (h : c.name = "AbstractStructure" ∨ "AbstractStructure" ∈ c.bases) :
     instantiate O c kw = .error .typeErr := by
-  have : (c.name == "AbstractStructure" || c.bases.contains "AbstractStructure") = true := by
+  have : c.isAbstract = true := by
+    unfold ClassDef.isAbstract
     rcases h with h | h
     · simp [h]
     · simp [h]
-  unfold instantiate
+  unfold instantiate instantiateOrd
   rw [if_pos this]
 
 theorem abstract_subclass_not_instantiable {O : Oracles} {w : World} {src : ClassSrc} {cd : ClassDef}
@@ -268,6 +270,165 @@ theorem abstract_subclass_not_instantiable {O : Oracles} {w : World} {src : Clas
     (kw : List (String × PyVal)) : instantiate O cd kw = .error .typeErr := by
   rcases defineClass_ok h with ⟨_, rfl⟩
   exact abstract_not_instantiable O _ kw (Or.inr hb)
+
+/-- C14 (abstract, every entry point): whichever class-level way of obtaining an instance is used
+    — constructor, `from_other_class`, `cast_to`, the class-level trust flag, `from_trusted_data` with
+    keywords or a mapping, trusted deserialization — an abstract class is refused with TypeError,
+    whatever the arguments and whatever the order oracle. -/
+theorem abstract_not_instantiable_via (O : Oracles) (c : ClassDef) (ord : List String) (e : Entry)
+    (kw : List (String × PyVal)) (h : c.name = "AbstractStructure" ∨ "AbstractStructure" ∈ c.bases) :
+    instantiateVia O c ord e kw = .error .typeErr := by
+  have : c.isAbstract = true := by
+    unfold ClassDef.isAbstract
+    rcases h with h | h
+    · simp [h]
+    · simp [h]
+  unfold instantiateVia
+  rw [if_pos this]
+
+/-- … and a class that is not abstract is never refused *as abstract* by a trusting entry point:
+    those return an instance of the class itself -/
+theorem concrete_trusted_entry_instantiates (O : Oracles) (c : ClassDef) (ord : List String) (e : Entry)
+    (kw : List (String × PyVal)) (h : c.isAbstract = false) (he : e.validates = false) :
+    instantiateVia O c ord e kw = .ok (.inst c.name kw) := by
+  unfold instantiateVia
+  rw [if_neg (by simp [h])]
+  cases e <;> simp_all [Entry.validates]
+
+/-! ### inheritance only adds strictness: constructors (through the bridge, Sem/DefineBridge.lean) -/
+
+/-- C14 (constructors, any two classes of any world): if every declared field of `B` is the same
+    Field object in `S`, `B`'s constructor demands no parameter `S`'s does not (and only declared
+    fields), and `S` does not switch class-level None-dropping on, then every keyword list `S`'s
+    constructor accepts is accepted by `B`'s constructor once restricted to `B`'s fields — for every
+    order of the required parameters on either side. -/
+theorem ctor_accepts_restricted (O : Oracles) {S B : ClassDef}
+    (hkS : KeysNodup S.allFields) (hkB : KeysNodup B.allFields)
+    (hsame : ∀ n ∈ Bridge.defOrder B, lookup n S.allFields = lookup n B.allFields)
+    (hreq : ∀ n ∈ B.sig.req, n ∈ S.sig.req)
+    (hwf : Bridge.wf B = true) (hign : S.ignoreNone = true → B.ignoreNone = true)
+    (hB : B.isAbstract = false)
+    (ordS ordB : List String) (kw : List (String × PyVal)) {x : PyVal}
+    (h : instantiateOrd O S ordS kw = .ok x) :
+    ∃ y, instantiateOrd O B ordB (restrictKw B kw) = .ok y := by
+  have hwf' := hwf
+  simp only [Bridge.wf, Bool.and_eq_true, List.all_eq_true, List.contains_eq_mem, decide_eq_true_eq] at hwf'
+  -- the subclass got through to `construct`
+  unfold instantiateOrd at h
+  split at h
+  · cases h
+  split at h
+  · cases h
+  split at h
+  · cases h
+  split at h
+  · cases h
+  rcases bindE_eq_ok h with ⟨x0, hx0, _⟩
+  rcases c14_construct_restrict O hkS hkB hsame hreq hwf'.1 hign ordS [S.name] ordB [B.name] kw hx0 with ⟨y0, hy0⟩
+  -- the base's own guards pass on the restricted arguments
+  have hnames : ∀ a ∈ restrictKw B kw, a.1 ∈ Bridge.defOrder B := by
+    intro a ha
+    have := (List.mem_filter.mp ha).2
+    simpa using this
+  have hbind : bindOk B.opts (Bridge.defOrder B) (restrictKw B kw) = true := by
+    have := (c14_construct_ok_iff O _ _ _ _).mp ⟨y0, by simpa only [ClassDef.toStruct] using hy0⟩
+    have hb := this.1
+    rw [c14_bindOk_names_congr _ _ (c14_mem_toStruct_names B ordB)] at hb
+    simpa [bindOk, ClassDef.opts] using hb
+  have hund : undeclaredKw B (restrictKw B kw) = false := by
+    apply List.any_eq_false.mpr
+    intro a ha
+    have := c14_defOrder_sub_fieldNames hkB (hnames a ha)
+    simp [this]
+  have hconst : (restrictKw B kw).any (fun a => (lookup a.1 B.constants).isSome) = false := by
+    apply List.any_eq_false.mpr
+    intro a ha
+    have := hwf'.2 a.1 (hnames a ha)
+    cases hl : lookup a.1 B.constants <;> simp_all
+  unfold instantiateOrd
+  rw [if_neg (by simp [hB]), if_neg (by simp [hbind]), if_neg (by simp [hund]), if_neg (by simp [hconst]), hy0]
+  exact ⟨_, rfl⟩
+
+/-- a class inherits every declared field of ancestor `a` unchanged: along the class's MRO the first
+    class that owns the name is `a` or one of `a`'s ancestors (nobody in between redeclares it) -/
+def inheritsUnchanged (w : World) (c a : ClassDef) : Bool :=
+  (Bridge.defOrder a).all fun n =>
+    match firstOwner (ownRev w) n c.mro with
+    | some k => a.mro.contains k
+    | none => false
+
+/-- C14 (constructors, every hierarchy a history can define): in a world reachable by class
+    statements, for a class `c` and any ancestor `a` at any depth (multiple bases, mixins, diamonds)
+    whose declared fields `c` inherits unchanged: what `c`'s constructor accepts, `a`'s constructor
+    accepts on the arguments restricted to `a`'s fields.  Exclusions (all decidable, all necessary):
+    a parameter `a` demands and `c` does not (the two `required-not-superset` findings), `c` switching
+    `_ignore_none` on, `a` abstract, `a`'s two field views disagreeing (`Bridge.wf`). -/
+theorem sub_accepts_base_accepts (O : Oracles) {w : World} (hw : WorldOk w) {c a : ClassDef} {cn : String}
+    (hc : w.find cn = some c) (ha : w.find a.name = some a) (hmem : a.name ∈ c.mro)
+    (hinh : inheritsUnchanged w c a = true)
+    (hreq : ∀ n ∈ a.sig.req, n ∈ c.sig.req)
+    (hwf : Bridge.wf a = true) (hign : c.ignoreNone = true → a.ignoreNone = true)
+    (hA : a.isAbstract = false)
+    (ordC ordA : List String) (kw : List (String × PyVal)) {x : PyVal}
+    (h : instantiateOrd O c ordC kw = .ok x) :
+    ∃ y, instantiateOrd O a ordA (restrictKw a kw) = .ok y := by
+  have hcok := hw cn c hc
+  have haok := hw a.name a ha
+  refine ctor_accepts_restricted O (classOk_keysNodup hcok) (classOk_keysNodup haok) ?_ hreq hwf hign hA
+    ordC ordA kw h
+  intro n hn
+  have := (List.all_eq_true.mp hinh) n hn
+  cases hk : firstOwner (ownRev w) n c.mro with
+  | none => simp [hk] at this
+  | some k =>
+    simp only [hk, List.contains_eq_mem, decide_eq_true_eq] at this
+    exact ancestor_field_same hw hc ha hmem hk this
+
+/-! ### no class is ever a strict subclass of a strict subclass of FinalStructure / ImmutableStructure -/
+
+/-- no class of the MRO tail is sealed -/
+def NoSealedAncestor (w : World) (c : ClassDef) : Prop :=
+  ∀ a ∈ c.mro.tail, sealedCls w a = false
+
+theorem sealedCls_add {w : World} {d : ClassDef} {a : String} (h : (w.find a).isSome = true) :
+    sealedCls (w.add d) a = sealedCls w a := by
+  cases hf : w.find a with
+  | none => simp [hf] at h
+  | some ad => simp [sealedCls, hf, find_add_of_some hf]
+
+/-- a successful class statement never has a sealed class behind it: `_check_for_final_violations` -/
+theorem defined_no_sealed_ancestor {O : Oracles} {w : World} {src : ClassSrc} {cd : ClassDef}
+    (h : defineClass O w src = .ok cd) : NoSealedAncestor w cd := by
+  rcases defineClass_ok h with ⟨hc, rfl⟩
+  have hf := runChecks_ok_mem hc _ (mem_checks_final (O := O) (w := w) (src := src))
+  simp only [finalCheck] at hf
+  split at hf
+  · cases hf
+  · rename_i hany
+    intro a ha
+    have : (mroTail w src).any (sealedCls w) = false := by simpa using hany
+    exact (List.any_eq_false.mp this) a ha |> fun h => by simpa using h
+
+/-- C14 (sealed classes): extending a strict subclass of FinalStructure / ImmutableStructure — directly
+    or through any chain of bases — is refused: the class statement raises and yields no class. -/
+theorem sealed_base_rejected (O : Oracles) {w : World} (src : ClassSrc) {b s : String}
+    {bd : ClassDef} (hb : b ∈ src.bases) (hbd : w.find b = some bd) (hs : s ∈ bd.mro)
+    (hsealed : sealedCls w s = true) :
+    ∃ e, defineClass O w src = .error e := by
+  cases hd : defineClass O w src with
+  | error e => exact ⟨e, rfl⟩
+  | ok cd =>
+    exfalso
+    have hns := defined_no_sealed_ancestor hd
+    rcases defineClass_ok hd with ⟨hc, rfl⟩
+    have hf := defFacts hc
+    have hsub : bd.mro.Sublist (mroTail w src) :=
+      c3merge_sublist _ _ _ hf.c3ok _ (by
+        simp only [mroSeqs, List.mem_append, List.mem_map, List.mem_singleton]
+        exact Or.inl ⟨bd, mem_baseDefs.mpr ⟨b, hb, hbd⟩, rfl⟩)
+    have := hns s (hsub.subset hs)
+    rw [hsealed] at this
+    cases this
 
 /-! ### kernel-checked counterexamples (the known findings) and non-vacuity -/
 
@@ -390,6 +551,64 @@ def keysWorld : World :=
 theorem keys_of_example :
     (keysWorld.find "Ok").isSome = true ∧ (keysWorld.find "MissFirst").isNone = true
     ∧ (keysWorld.find "MissMiddle").isNone = true ∧ (keysWorld.find "MissLast").isNone = true := by
+  decide
+
+/-! ### constructors through the bridge: non-vacuity and necessity of the exclusions -/
+
+def minF : SrcEntry := .field (.integer { min := some (Q.ofInt 1) }) none none
+def strDflt : SrcEntry := .field (.string none none none) (some (.lit (.str "x"))) none
+
+def ctorWorld : World :=
+  runSteps exO W0 [.define (plainSrc "B" ["Structure"] [("a", minF), ("s", strDflt)]),
+                   .mixin "Mx",
+                   .define (plainSrc "S" ["Mx", "B"] [("b", intF)]),
+                   .define (plainSrc "T" ["S"] [("t", intF)])]
+
+def clsOf (w : World) (n : String) : ClassDef := (w.find n).getD (mixinDef "?")
+
+/-- non-vacuity of `sub_accepts_base_accepts`: a grandchild `T` (through a mixin and a middle
+    class) inherits `B`'s fields unchanged; `T(a=3, b=2, t=1)` is accepted and so is `B(a=3)`, in both
+    orders of `T`'s required parameters; `T(a=0, …)` is refused like `B(a=0)` -/
+theorem ctor_example :
+    inheritsUnchanged ctorWorld (clsOf ctorWorld "T") (clsOf ctorWorld "B") = true
+    ∧ Bridge.wf (clsOf ctorWorld "B") = true
+    ∧ (clsOf ctorWorld "T").sig.req = ["a", "b", "t"]
+    ∧ isOkR (instantiateOrd exO (clsOf ctorWorld "T") ["t", "b", "a"] [("a", .int 3), ("b", .int 2), ("t", .int 1)]) = true
+    ∧ (restrictKw (clsOf ctorWorld "B") [("a", PyVal.int 3), ("b", .int 2), ("t", .int 1)]).map (·.1) = ["a"]
+    ∧ isOkR (instantiate exO (clsOf ctorWorld "B") [("a", .int 3)]) = true
+    ∧ isOkR (instantiate exO (clsOf ctorWorld "T") [("a", .int 0), ("b", .int 2), ("t", .int 1)]) = false
+    ∧ isOkR (instantiate exO (clsOf ctorWorld "B") [("a", .int 0)]) = false := by
+  decide
+
+/-- the `_ignore_none` exclusion is necessary: a subclass that switches it on accepts `a=None` for an
+    optional inherited field, the base refuses it -/
+def ignWorld : World :=
+  runSteps exO W0 [.define { plainSrc "B" ["Structure"] [("a", intF)] with required := some [] },
+                   .define { plainSrc "S" ["B"] [] with ignoreNone := some true }]
+
+theorem ignore_none_exclusion_necessary :
+    inheritsUnchanged ignWorld (clsOf ignWorld "S") (clsOf ignWorld "B") = true
+    ∧ isOkR (instantiate exO (clsOf ignWorld "S") [("a", .none)]) = true
+    ∧ isOkR (instantiate exO (clsOf ignWorld "B") (restrictKw (clsOf ignWorld "B") [("a", .none)])) = false := by
+  decide
+
+/-- the required-parameter exclusion is necessary (finding `required-not-superset:optional-in-earlier-base`
+    at constructor level): `S(A1, A2)` accepts `b=1` alone, `A2` demands `a` -/
+theorem second_base_ctor_counterexample :
+    isOkR (instantiate exO (clsOf twoBaseWorld "S") [("b", .int 1)]) = true
+    ∧ isOkR (instantiate exO (clsOf twoBaseWorld "A2") (restrictKw (clsOf twoBaseWorld "A2") [("b", .int 1)])) = false := by
+  decide
+
+/-- an abstract class through every entry point, and its concrete subclass -/
+def absWorld : World :=
+  runSteps exO W0 [.define (plainSrc "Base" ["AbstractStructure"] [("i", intF)]),
+                   .define (plainSrc "Concrete" ["Base"] [("a", intF)])]
+
+theorem abstract_entries_example :
+    (Entry.all.all fun e => isError (instantiateVia exO (clsOf absWorld "Base") ["i"] e [("i", .int 1)])) = true
+    ∧ (Entry.all.all fun e => isError (instantiateVia exO (clsOf absWorld "AbstractStructure") [] e [])) = true
+    ∧ (Entry.all.all fun e => isOkR (instantiateVia exO (clsOf absWorld "Concrete") ["i", "a"] e
+          [("i", .int 1), ("a", .int 2)])) = true := by
   decide
 
 end Typedpy.C14
